@@ -243,6 +243,12 @@ def ruleEq (validName obj field : Bytes) (tv : GoVal) (wantEq : Bool) : M Bytes 
   return violClause obj field input cusMsg
     [if wantEq then b! "it should equal" else b! "it is not equal", eqStr, unit]
 
+/-- a Go slice expression `s[lo:hi]` evaluated in `M`: panics exactly when Go does -/
+def sliceM (s : Bytes) (lo hi : Nat) : M Bytes :=
+  match Bytes.slice? s lo hi with
+  | some r => pure r
+  | none => throw (.panic "slice bounds out of range")
+
 /-! ## `in` / `include` -/
 
 def lastIndexByte (c : UInt8) (s : Bytes) : Option Nat := Bytes.lastIndexByte? c s
@@ -253,8 +259,8 @@ def ruleIn (validName obj field : Bytes) (tv : GoVal) : M Bytes := do
   let useErr := if isInclude then includeErr else inValErr
   match Bytes.indexByte? 40 val, lastIndexByte 41 val with
   | some l, some r =>
-    if r < l + 1 then return getJoinFieldErr obj field useErr
-    let inVals := (val.take r).drop (l + 1)
+    if r < l then return getJoinFieldErr obj field useErr
+    let inVals ← sliceM val (l + 1) r
     let tvVal ← match tv with
       | .str s => pure s
       | v => if isInclude then return getJoinFieldErr obj field useErr else toStrIface v
@@ -363,7 +369,7 @@ def ruleRe (ext : Ext) (validName obj field : Bytes) (tv : GoVal) : M Bytes := d
       match reScan (validName.drop (qi + 1)) (qi + 1) [] with
       | none => return getJoinFieldErr obj field reErr
       | some (pattern, i) =>
-        let newValidName := validName.take qi ++ validName.drop (i + 1)
+        let newValidName := (← sliceM validName 0 qi) ++ (← sliceM validName (i + 1) validName.length)
         let (_, _, cusMsg) := parseValidNameKV newValidName
         let a ← askExt ext (.regex pattern s)
         if a.code == 1 then return []
@@ -394,6 +400,11 @@ where
       if !sep.isEmpty && sep.isPrefixOf s then cur.reverse :: go t [] (sep.length - 1)
       else go t (c :: cur) 0
 
+/-- the display loop of `Ints` / `Unique` for slices: `if valStr == "[" { valStr += v } else { valStr += sep + v }`
+(leading empty renderings therefore get no separator) -/
+def bracketJoin (sep : Bytes) (parts : List Bytes) : Bytes :=
+  parts.foldl (fun acc v => if acc == [91] then acc ++ v else acc ++ sep ++ v) [91] ++ [93]
+
 def ruleInts (validName obj field : Bytes) (tv : GoVal) : M Bytes := do
   let (_, split0, cusMsg) := parseValidNameKV validName
   let split1 := Bytes.trimByte QUOTE split0
@@ -406,7 +417,7 @@ def ruleInts (validName obj field : Bytes) (tv : GoVal) : M Bytes := do
   | .slice _ _ _ es | .array _ _ es =>
     let parts ← es.toList.mapM toStrIface
     let ok := parts.all Lang.intRe
-    let valStr := [91] ++ Bytes.join (b! ", ") parts ++ [93]
+    let valStr := bracketJoin (b! ", ") parts
     if ok then return []
     return violClause obj field valStr cusMsg [b! "slice/array element is not all num"]
   | v =>
@@ -434,7 +445,7 @@ def ruleUnique (validName obj field : Bytes) (tv : GoVal) : M Bytes := do
     return violClause obj field s cusMsg [b! "they're not unique"]
   | .slice _ _ _ es | .array _ _ es =>
     let parts ← es.toList.mapM toStrIface
-    let inVal := [91] ++ Bytes.join [COMMA] parts ++ [93]
+    let inVal := bracketJoin [COMMA] parts
     if allDistinct parts then return []
     return violClause obj field inVal cusMsg [b! "they're not unique"]
   | _ => return getJoinFieldErr obj field uniqueErr
@@ -485,37 +496,41 @@ inductive Builtin where
   | structural      -- required / exist / either / botheq: `nil` in the table
   | fn (run : Ext → Bytes → Bytes → Bytes → GoVal → M Bytes)
 
-def builtin (key : Bytes) : Option Builtin :=
-  if key == requiredB || key == existB || key == eitherB || key == bothEqB then some .structural
-  else if key == b! "to" then some (.fn fun e v o f tv => ruleTo e v o f tv true)
-  else if key == b! "oto" then some (.fn fun e v o f tv => ruleTo e v o f tv false)
-  else if key == b! "ge" then some (.fn fun _ v o f tv => pure (ruleBound v o f tv true true))
-  else if key == b! "gt" then some (.fn fun _ v o f tv => pure (ruleBound v o f tv true false))
-  else if key == b! "le" then some (.fn fun _ v o f tv => pure (ruleBound v o f tv false true))
-  else if key == b! "lt" then some (.fn fun _ v o f tv => pure (ruleBound v o f tv false false))
-  else if key == b! "eq" then some (.fn fun _ v o f tv => ruleEq v o f tv true)
-  else if key == b! "noeq" then some (.fn fun _ v o f tv => ruleEq v o f tv false)
-  else if key == b! "in" || key == b! "include" then some (.fn fun _ v o f tv => ruleIn v o f tv)
-  else if key == b! "phone" then some (.fn fun _ v o f tv => rulePhone v o f tv)
-  else if key == b! "email" then some (.fn fun _ v o f tv => ruleEmail v o f tv)
-  else if key == b! "idcard" then some (.fn fun _ v o f tv => ruleIDCard v o f tv)
-  else if key == b! "year" then some (.fn ruleYear)
-  else if key == b! "year2month" then some (.fn ruleYear2Month)
-  else if key == b! "date" then some (.fn ruleDate)
-  else if key == b! "datetime" then some (.fn ruleDatetime)
-  else if key == b! "int" then some (.fn fun _ v o f tv => ruleInt v o f tv)
-  else if key == b! "ints" then some (.fn fun _ v o f tv => ruleInts v o f tv)
-  else if key == b! "float" then some (.fn fun _ v o f tv => ruleFloat v o f tv)
-  else if key == b! "re" then some (.fn ruleRe)
-  else if key == b! "ip" then some (.fn fun e v o f tv => ruleIp e v o f tv 0)
-  else if key == b! "ipv4" then some (.fn fun e v o f tv => ruleIp e v o f tv 1)
-  else if key == b! "ipv6" then some (.fn fun e v o f tv => ruleIp e v o f tv 2)
-  else if key == b! "unique" then some (.fn fun _ v o f tv => ruleUnique v o f tv)
-  else if key == b! "json" then some (.fn ruleJson)
-  else if key == b! "prefix" then some (.fn fun _ v o f tv => rulePrefix v o f tv true)
-  else if key == b! "suffix" then some (.fn fun _ v o f tv => rulePrefix v o f tv false)
-  else if key == b! "file" then some (.fn fun e v o f tv => ruleFileDir e v o f tv false)
-  else if key == b! "dir" then some (.fn fun e v o f tv => ruleFileDir e v o f tv true)
-  else none
+/-- `validName2FnMap` of `init.go` (a map literal: rule name ↦ function, `nil` for the four rules
+the walkers implement themselves) -/
+def builtinTable : List (Bytes × Builtin) := [
+  (requiredB, .structural), (existB, .structural), (eitherB, .structural), (bothEqB, .structural),
+  (b! "to", .fn fun e v o f tv => ruleTo e v o f tv true),
+  (b! "oto", .fn fun e v o f tv => ruleTo e v o f tv false),
+  (b! "ge", .fn fun _ v o f tv => pure (ruleBound v o f tv true true)),
+  (b! "gt", .fn fun _ v o f tv => pure (ruleBound v o f tv true false)),
+  (b! "le", .fn fun _ v o f tv => pure (ruleBound v o f tv false true)),
+  (b! "lt", .fn fun _ v o f tv => pure (ruleBound v o f tv false false)),
+  (b! "eq", .fn fun _ v o f tv => ruleEq v o f tv true),
+  (b! "noeq", .fn fun _ v o f tv => ruleEq v o f tv false),
+  (b! "in", .fn fun _ v o f tv => ruleIn v o f tv),
+  (b! "include", .fn fun _ v o f tv => ruleIn v o f tv),
+  (b! "phone", .fn fun _ v o f tv => rulePhone v o f tv),
+  (b! "email", .fn fun _ v o f tv => ruleEmail v o f tv),
+  (b! "idcard", .fn fun _ v o f tv => ruleIDCard v o f tv),
+  (b! "year", .fn ruleYear),
+  (b! "year2month", .fn ruleYear2Month),
+  (b! "date", .fn ruleDate),
+  (b! "datetime", .fn ruleDatetime),
+  (b! "int", .fn fun _ v o f tv => ruleInt v o f tv),
+  (b! "ints", .fn fun _ v o f tv => ruleInts v o f tv),
+  (b! "float", .fn fun _ v o f tv => ruleFloat v o f tv),
+  (b! "re", .fn ruleRe),
+  (b! "ip", .fn fun e v o f tv => ruleIp e v o f tv 0),
+  (b! "ipv4", .fn fun e v o f tv => ruleIp e v o f tv 1),
+  (b! "ipv6", .fn fun e v o f tv => ruleIp e v o f tv 2),
+  (b! "unique", .fn fun _ v o f tv => ruleUnique v o f tv),
+  (b! "json", .fn ruleJson),
+  (b! "prefix", .fn fun _ v o f tv => rulePrefix v o f tv true),
+  (b! "suffix", .fn fun _ v o f tv => rulePrefix v o f tv false),
+  (b! "file", .fn fun e v o f tv => ruleFileDir e v o f tv false),
+  (b! "dir", .fn fun e v o f tv => ruleFileDir e v o f tv true)]
+
+def builtin (key : Bytes) : Option Builtin := builtinTable.lookup key
 
 end PGV.Model
